@@ -94,6 +94,14 @@ CHECKS.update({
             PROVED, "§3 C06"),
 })
 
+CHECKS.update({
+    "C13": ("proof", "unbounded theorems over all 2^64 f64 and all 2^32 f32 bit patterns, every profile: TryFrom never panics and returns NotANumber / "
+            "InfiniteValue / InternalOverflow / the exact value rounded half-to-even to 18 fractional digits in normal form, as the specification "
+            "prescribes (bit-field decode, tiny values, the digit loop by induction with its three bounds and no i128 overflow of any intermediate, "
+            "the final half-even step, normalisation, the checked shift incl. 1 << 127); the specification's normal form is characterised by theorem",
+            PROVED, "§3 C13"),
+})
+
 NOT_YET = {}
 
 def main():
